@@ -18,3 +18,42 @@ def dnaToHp (hs : List HpDecl) (dna : List Nat) : Except Jesse.Err (List Rat) :=
   | _, _ => .ok []
 
 end Jesse.Dna
+
+namespace Jesse.Dna
+open Jesse.Gen
+
+/-- what a strategy class declares: its hyperparameter declarations with defaults, and its dna() -/
+structure StratDecl where
+  decls : List HpDecl
+  defaults : List Rat
+  dna : List Nat
+
+/-- `hp` as a strategy sees it: `none` (no hyperparameters at all) or the list of values in
+    declaration order.  An explicitly passed dict is represented by its values. -/
+abbrev Hp := Option (List Rat)
+
+/-- Hand model of the loop of `_prepare_routes` (jesse/modes/backtest_mode.py) together with
+    `Strategy._init_objects`: per route, `route_hyperparameters = hyperparameters`; if the strategy
+    has a dna() and no explicit values were passed, decode it; inject when not None; otherwise
+    `_init_objects` falls back to the declared defaults.  `explicit` is the function argument and is
+    threaded through the loop exactly as the code does (it is never reassigned). -/
+def prepareRoute (explicit : Hp) (s : StratDecl) : Except Jesse.Err Hp :=
+  let routeHp : Except Jesse.Err Hp :=
+    if s.dna.length > 0 ∧ explicit = none then
+      (match dnaToHp s.decls s.dna with | .error e => .error e | .ok v => .ok (some v))
+    else .ok explicit
+  match routeHp with
+  | .error e => .error e
+  | .ok (some v) => .ok (some v)
+  | .ok none => if s.decls.length > 0 then .ok (some s.defaults) else .ok none
+
+def prepareRoutes (explicit : Hp) : List StratDecl → Except Jesse.Err (List Hp)
+  | [] => .ok []
+  | s :: rest =>
+    match prepareRoute explicit s with
+    | .error e => .error e
+    | .ok h => match prepareRoutes explicit rest with
+      | .error e => .error e
+      | .ok hs => .ok (h :: hs)
+
+end Jesse.Dna
